@@ -332,6 +332,9 @@ def shard_failure(args):
                               'the execute wrapper let %r escape' % e, front)
                 continue
             got = [bind.pdu_bytes(x) for x in sent]
+            if got == [bytes([m['fc'] | 0x80, 4])] and (sent[0].transaction_id != 0x55 or sent[0].unit_id != 1):
+                acc.violation('C05/fc%02d/ex04/ids-not-echoed/%s' % (m['fc'], front), wit,
+                              'exception 04 sent with transaction id %r unit %r (request 0x55 / 1)' % (sent[0].transaction_id, sent[0].unit_id), front)
             if got != [bytes([m['fc'] | 0x80, 4])]:
                 acc.violation('C05/fc%02d/ex04/%s/%s' % (m['fc'], 'no-response' if not got else 'other', front), wit,
                               'datastore %s raised; responses %r' % (which, [g.hex() for g in got]), front)
